@@ -213,6 +213,42 @@ def run(F, chk):
             chk.violation("R11.3", "C11/R11.3:%s:user-copy" % cls, "%s:%s" % (r["file"], r["loc"].split(":")[0]),
                           "%s has a user-provided copy/move operation (%s); member-wise deep copy is no longer guaranteed" % (
                               cls, ", ".join(m["short"] for m in user_copy)))
+    # user-written copy operations of any record inside a block (nested value types): every field must be copied, owning
+    # pointers deep-copied
+    for rec in sorted(visited):
+        r = F.recs.get(rec)
+        if not r or rec in roots or rec == "nifly::NifFile":
+            continue
+        ops = [m for m in r.get("methods", []) if (m.get("copyctor") or m.get("copyassign")) and m.get("user")]
+        for m in ops:
+            fn = F.fns.get(m["id"])
+            fields = [f["name"] for f in r.get("fields", [])]
+            covered = set()
+            delegates = False
+            if fn is not None:
+                for i in fn.get("inits", []):
+                    if i.get("field") and not i.get("implicit"):
+                        covered.add(i["field"])
+                for n in walk(fn.get("body") or {}):
+                    tgt = None
+                    if n["k"] == "Assign":
+                        tgt = n["l"]
+                    elif n["k"] == "OpCall" and n.get("op") == "=" and n.get("args"):
+                        tgt = n["args"][0]
+                        # `*this = other` delegates to the assignment operator (checked on its own)
+                        if is_node(tgt) and tgt["k"] == "Unary" and tgt["op"] == "*" and is_node(tgt["e"]) and tgt["e"]["k"] == "This":
+                            delegates = True
+                    while is_node(tgt) and tgt["k"] in ("Subscript",):
+                        tgt = tgt["base"]
+                    if is_node(tgt) and tgt["k"] == "Member" and tgt.get("owner") == rec:
+                        covered.add(tgt["name"])
+            missing = [f for f in fields if f not in covered]
+            ok = fn is not None and (delegates or not missing)
+            chk.instance(R3, ok=ok, sample={"record": rec, "operation": m["short"], "fields": len(fields), "missing": missing if not delegates else "delegates"})
+            if not ok:
+                chk.violation("R11.3", "C11/R11.3:%s:%s" % (rec, m["short"]), where(fn) if fn else "%s:%s" % (r["file"], r["loc"].split(":")[0]),
+                              "user-written %s of %s (a value type inside block classes) does not copy member(s) %s: a copied "
+                              "model silently loses them" % (m["short"], rec, missing))
     # NifFile's own copy operations must route through CopyFrom
     for m in (nf or {}).get("methods", []):
         if (m.get("copyctor") or m.get("copyassign")) and m.get("user"):
